@@ -989,7 +989,7 @@ func relayExchange(s *stack.Stack, R *backend.Rec, model string, c RelayCase) []
 		bad("relay/no-response/"+mode, "the client connection failed (%v) instead of carrying a response — a handler panic recovered by net/http looks like this: %s", err, desc())
 	default:
 		rec.Class(fmt.Sprintf("relay/client-status=%d", resp.StatusCode))
-		if bytes.Contains(bytes.ToLower(out), []byte("panic")) {
+		if bytes.Contains(bytes.ToLower(out), []byte("panic")) && !bytes.Contains(bytes.ToLower(c.Body), []byte("panic")) {
 			bad("relay/panic-surfaced/"+c.Engine, "the response (status %d) mentions a recovered panic: %s; %s", resp.StatusCode, trunc(string(out), 300), desc())
 		}
 		if forwarded && json.Valid(c.Body) && !seedHashes[sha256.Sum256(c.Body)] {
